@@ -43,10 +43,11 @@ PROPS = {
         explanation='Grant/refuse contract proved; release/cleanup/wait-graph/cycle detection bounded.',
     ),
     'C04': dict(
-        v=[], k=[('relational_engine', ['c04_ordfloat_total_order', 'c04_ordfloat_eq_implies_cmp_equal'])], b=[],
+        v=['C04_sortkey'], k=[('relational_engine', ['c04_ordfloat_total_order', 'c04_ordfloat_eq_implies_cmp_equal',
+                                                     'c04_float_sort_key_monotone', 'c04_float_sort_key_roundtrip'])], b=[],
         level='other',
-        technique='Kani full-domain harnesses on OrderedFloat comparator (bit-precise f64)',
-        claim='the btree key comparator is a total order on all f64 bit patterns (Kani, complete)',
+        technique='Kani full-domain harnesses on the OrderedFloat comparator and on the float index-key statements pasted from the real functions; Verus on the extracted integer index-key arithmetic',
+        claim='the btree key comparator is a total order on all f64 bit patterns; the persisted float index key is strictly monotone and decodes back to the value for EVERY f64 bit pattern (Kani, complete); the integer key is an order isomorphism with exact inverse for all i64 (Verus)',
         explanation='Comparator kernel proved; query strategies are checked by the bounded sets.',
     ),
     'C06': dict(
